@@ -170,6 +170,8 @@ static void add_protocol(const std::string &name, const std::string &seedname, c
 	for (size_t i = 0; i < d.ab.sent.size(); i++) seed += d.ab.sent[i] + "\n";
 	Target t;
 	t.name = name, t.seedname = seedname, t.seed = seed, t.cat = cp ? *cp : cat();
+	// the cut-and-choose verifiers read a stack secret with operator>> in every round (671 MB line buffer per call)
+	t.heavy = name.find("VerifyStackEquality") != std::string::npos && name.find("Groth") == std::string::npos && name.find("Hoogh") == std::string::npos;
 	t.run = [verifier](const std::string &in) {
 		std::istringstream is(in);
 		std::ostringstream os;
